@@ -236,6 +236,27 @@ func sizeProgram(c sizeCase) (stmts []string, expect []string) {
 		}
 		stmts = append(stmts, "f = ("+strings.Join(ps, ", ")+") -> "+ps[0]+" + "+ps[c.K-1], "f("+strings.Join(as, ", ")+")")
 		expect = append(expect, "function", "6")
+	case "if-else-long", "if-then-long", "while-long", "for-long":
+		// a control statement whose branch or body is about k instructions long (function definitions
+		// of <= 20000 constant-free statements each): the jump across it works or the statement is refused
+		var fs strings.Builder
+		for left, i := c.K, 0; left > 0; left, i = left-20000, i+1 {
+			fmt.Fprintf(&fs, "%s = () -> {\nx = 0\n%s}\n", letters("zg", i), strings.Repeat("x = x\n", min(left, 20000)))
+		}
+		switch c.Shape {
+		case "if-else-long":
+			stmts = append(stmts, "r = 10", "if r == 10 {\nr = r + 1\n} else {\n"+fs.String()+"r = r + 2\n}", "r")
+			expect = append(expect, "10", "", "11")
+		case "if-then-long":
+			stmts = append(stmts, "r = 10", "if r != 10 {\n"+fs.String()+"r = r + 1\n} else {\nr = r + 2\n}", "r", "if r != 12 {\n"+fs.String()+"r = r + 1\n}", "r")
+			expect = append(expect, "10", "", "12", "", "12")
+		case "while-long":
+			stmts = append(stmts, "r = 0", "while r < 2 {\n"+fs.String()+"r = r + 1\n}", "r")
+			expect = append(expect, "0", "", "2")
+		default:
+			stmts = append(stmts, "r = 0", "for zv <- fromto(0, 3) {\n"+fs.String()+"r = r + zv\n}", "r")
+			expect = append(expect, "0", "", "3")
+		}
 	case "parameters-unused": // the count alone: too few arguments must be an arity error, the right number works
 		ps, as := []string{}, []string{}
 		for i := 0; i < c.K; i++ {
@@ -322,6 +343,18 @@ func c15Programs(t *testing.T, rec *ev.Recorder, ks []int, seed int) {
 				t.Fatalf("%s x %d: %s", shape, k, why)
 			}
 			rec.Case(fmt.Sprintf("size %s x %d", shape, k), true, "size-program", fmt.Sprintf("refused:%v", refused > 0))
+		}
+	}
+	// jumps across 2^15 and 2^16 instructions
+	for _, shape := range []string{"if-else-long", "if-then-long", "while-long", "for-long"} {
+		for _, k := range []int{32000 + seed%7*300, 66000 + seed%5*100} {
+			c := sizeCase{Shape: shape, K: k}
+			why, refused := runSizeCase(c)
+			if why != "" {
+				ev.Repro("C15", "size", c)
+				t.Fatalf("%s x %d: %s", shape, k, why)
+			}
+			rec.Case(fmt.Sprintf("size %s x %d", shape, k), true, "size-jump", fmt.Sprintf("refused:%v", refused > 0))
 		}
 	}
 	// the exact boundaries of the 15/16 bit fields, per shape that counts something
